@@ -117,7 +117,74 @@ def run(tier, seed):
             res.violations.append({"clause": "whole-stream-spec", "signature": "C13:" + (fo[0] if fo[0] != "err" else fo[1]),
                                    "case": {"stream": {"hex": stream.hex()}, "chunks": [c.hex() for c in chunks], "ending": exc or "close"},
                                    "trace": {"outcome": fo}})
+    session_stall_cases(res)
+    res.rule += " | plus, through GeminiClient (get / upload / delete, TOFU on and off): a server that stops at every kind of offset of its response and keeps the connection open, and a connection attempt that never completes - cut off at the client's timeout"
     import nauyaca.protocol.constants as k
     if k.MAX_RESPONSE_BODY_SIZE != 10 * 1024 * 1024:
         res.disagreements.append({"driver": "client:cap-constant", "case": "MAX_RESPONSE_BODY_SIZE", "model": 10 * 1024 * 1024, "impl": k.MAX_RESPONSE_BODY_SIZE})
     return res
+
+
+def session_stall_cases(res):
+    """ "A server that never finishes is cut off at the timeout": the timeout lives in the session (client/session.py), not in the
+    protocol objects.  GeminiClient(timeout=0.4) against a peer that delivers a prefix of its response and then says nothing while
+    keeping the connection open, for get, upload and delete, with and without TOFU; and a connect that never completes.  Every call
+    must end by itself (we wait ten times the timeout) with a timeout error."""
+    import asyncio, certs as certmod
+    from pathlib import Path
+    from nauyaca.client.session import GeminiClient
+    cs = certmod.certs()
+    full = b"20 text/gemini\r\n# stored\n"
+    tmp = scratch_dir("nv-c13s-")
+    async def one(op, tofu, offset):
+        loop = asyncio.get_running_loop()
+        async def fake_cc(factory, host=None, port=None, ssl=None, server_hostname=None, **kw):
+            if offset is None:
+                await asyncio.Event().wait()          # the connection attempt itself never completes
+            proto = factory()
+            class T(cd.RecTransport):
+                def get_extra_info(self_, name, default=None):
+                    if name == "ssl_object":
+                        class S:
+                            def getpeercert(self, binary_form=False): return cs[0]["der"]
+                        return S()
+                    return default
+            tr = T([])
+            proto.connection_made(tr)
+            if offset: loop.call_soon(lambda: None if tr.closed else proto.data_received(full[:offset]))
+            return tr, proto
+        client = GeminiClient(timeout=0.4, trust_on_first_use=tofu, tofu_db_path=(Path(tmp) / ("s-%s-%s-%s.db" % (op, tofu, offset))) if tofu else None)
+        loop.create_connection = fake_cc
+        t0 = loop.time()
+        try:
+            if op == "get": call = client.get("gemini://stall.example/x", follow_redirects=False)
+            elif op == "upload": call = client.upload("gemini://stall.example/x", b"content", mime_type="text/plain", token="t")
+            else: call = client.delete("gemini://stall.example/x", token="t")
+            try:
+                r = await asyncio.wait_for(call, 4.0)
+                out = ["returned", getattr(r, "status", None)]
+            except asyncio.TimeoutError as e:
+                # asyncio.TimeoutError IS TimeoutError: told apart by who raised it - our outer guard fires at 4 s only
+                out = ["timeout-error"] if loop.time() - t0 < 3.5 else ["still-waiting-after-4s"]
+            except Exception as e:
+                out = ["error", type(e).__name__]
+        finally:
+            del loop.create_connection
+        return out, round(loop.time() - t0, 2)
+    try:
+        async def go():
+            outs = []
+            for op in ("get", "upload", "delete"):
+                for tofu in (False, True):
+                    for offset in (None, 0, 5, 16, len(full)):
+                        outs.append((op, tofu, offset, await one(op, tofu, offset)))
+            return outs
+        for op, tofu, offset, (out, took) in asyncio.run(go()):
+            res.evaluations += 1; res.count("session-stall:" + op); res.nontriv(("session-stall", op, tofu, offset))
+            if out != ["timeout-error"]:
+                res.violations.append({"clause": "a server that never finishes is cut off at the timeout (through GeminiClient.%s)" % op, "signature": "C13:session-stall:" + op,
+                                       "case": {"operation": op, "trust_on_first_use": tofu, "client_timeout_s": 0.4,
+                                                "server": "the connection attempt never completes" if offset is None else "sends %d bytes of %r, then nothing; the connection stays open" % (offset, full.decode("latin-1"))},
+                                       "trace": {"outcome": out, "after_s": took}})
+    finally:
+        shutil.rmtree(tmp, ignore_errors=True)
